@@ -267,10 +267,11 @@ Section Rescan.
   Qed.
 
   Lemma rescan_J :
-    exists s', hexec buffer (s, K) HRescan = ROk (s', K) /\ J buffer s' K.
+    exists s', hexec buffer (s, K) HRescan = ROk (s', K) /\ J buffer s' K /\
+               (forall id, negof1 s' id = negof1 s id) /\ (forall id, negof2 s' id = negof2 s id).
   Proof.
     destruct (RS_steps (rev K) [] (reset_chain s) eq_refl RS_reset) as (s' & E & HR).
-    exists s'. split; [|apply RS_done; exact HR].
+    exists s'. split; [|split; [apply RS_done; exact HR|destruct HR as (_ & N1 & N2 & _); auto]].
     cbn [hexec exec rbind chain_update foldM]. rewrite E. reflexivity.
   Qed.
 End Rescan.
